@@ -84,6 +84,9 @@ pub enum Cadence {
 #[derive(Clone, Copy, Debug, PartialEq)]
 pub enum LenClass {
     Tiny,
+    /// 4 or 5 bytes: with its header a datagram of 9..10 bytes, so that a full data frame carries
+    /// more datagrams than its count field can express unless the emitter stops in time
+    Minute,
     Small,
     Medium,
     Boundary,
@@ -307,6 +310,9 @@ pub struct Sim<'s> {
     inj_rng: Rng,
     seq: u64,
     now_ns: u64,
+    /// added to the clock uflow sees once the HalfConnections exist: objects that are this old
+    /// when the traffic begins (their millisecond counters near 2^31 / 2^32 / 2^40)
+    epoch_ns: u64,
     uid_counter: [u64; 2],
     amb_counter: [u64; 2],
     pub out: Outcome,
@@ -383,6 +389,7 @@ impl<'s> Sim<'s> {
             inj_rng: Rng::new(mix(scn.seed, 0x1271ec7)),
             seq: 0,
             now_ns: 0,
+            epoch_ns: crate::epsim::pick_epoch_ns(mix(scn.seed, 0xe90c)),
             uid_counter: [1, (1 << 30) | 1],
             amb_counter: [0, 0],
             out: Outcome {
@@ -699,6 +706,7 @@ impl<'s> Sim<'s> {
         };
         let v = match class {
             LenClass::Tiny => rng.range(4, 16) as usize,
+            LenClass::Minute => rng.range(4, 6) as usize,
             LenClass::Small => rng.range(4, 200) as usize,
             LenClass::Medium => rng.range(4, 3000) as usize,
             LenClass::Boundary => {
@@ -854,7 +862,7 @@ impl<'s> Sim<'s> {
     }
 
     fn side_step(&mut self, i: usize) -> bool {
-        uv::time::set_virtual_ns(Some(self.now_ns));
+        uv::time::set_virtual_ns(Some(self.now_ns + self.epoch_ns));
         {
             // step interval that ends at this instant (the credit for it is granted by this step)
             let now = self.now_ns;
@@ -1087,6 +1095,9 @@ impl<'s> Sim<'s> {
         let traffic_end = self.scn.traffic.iter().map(|t| t.stop_ns.max(t.probes_after_ns.unwrap_or(0))).max().unwrap_or(0);
         let mut total_steps = 0u64;
         let dud0 = uv::dud_count();
+        if self.epoch_ns != 0 {
+            self.out.c.inc("halfconnections_2^31_ms_old_or_more");
+        }
         loop {
             let i = if self.sides[0].next_step_ns <= self.sides[1].next_step_ns { 0 } else { 1 };
             self.now_ns = self.sides[i].next_step_ns;
